@@ -173,7 +173,7 @@ def main():
         "coverage": {
             "evaluations": shuttle_execs + miri_execs,
             "distinct_nontrivial": srep["distinct_record_orders"] + (mrep["distinct_record_orders"] if mrep else 0),
-            "rule": "one evaluation = one complete execution of a seeded multi-thread print scenario under one controlled schedule. shuttle-sim: 2-4 simulated threads x 1-4 calls (write! with several arguments and fragments, writeln!, write_all, a lock-held group, interleaved write_global/global) through AutoStream::never / always_ansi / always / new(Never) / StripStream over a simulated lockable stdout (reentrant lock built from shuttle Mutex+Condvar, a scheduling point before every inner write, optional short writes), schedules from shuttle's seeded random and PCT(1)/PCT(3) schedulers. miri-sim: 2-4 real std threads x 1-3 calls (print!/println!/eprint!/eprintln!, write!/writeln! on anstream::stdout()/stderr(), write_all, stdout().lock() group, write_global/global) against the real std streams under Miri with -Zmiri-seed and preemption rates 0.01-0.5, both pipes captured. Scenarios of both engines include a print whose Display argument itself prints a whole record (re-entrant use of the lock; accepted: the nested record inside the outer one or in front of it, never another thread's bytes inside either), shuttle scenarios now and then 5-8 threads, Miri scenarios records that end inside an escape sequence (a thread's last), and a share of the Miri executions runs the program built with anstream's `test` feature (the macros' capture path). After each execution the output must parse as a concatenation of whole records (each exactly once, per-thread order kept, lock-held groups unbroken) and the global choice must behave as an atomic register. Every scenario has >= 2 threads, so every execution is non-trivial; distinct = distinct (scenario, order in which the threads' records appear) pairs, counted per scenario and summed",
+            "rule": "one evaluation = one complete execution of a seeded multi-thread print scenario under one controlled schedule. shuttle-sim: 2-4 simulated threads x 1-4 calls (write! with several arguments and fragments, writeln!, write_all, a lock-held group, interleaved write_global/global) through AutoStream::never / always_ansi / always / new(Never) / StripStream over a simulated lockable stdout (reentrant lock built from shuttle Mutex+Condvar, a scheduling point before every inner write, optional short writes), schedules from shuttle's seeded random and PCT(1)/PCT(3) schedulers. miri-sim: 2-4 real std threads x 1-3 calls (print!/println!/eprint!/eprintln!, write!/writeln! on anstream::stdout()/stderr(), write_all, stdout().lock() group, write_global/global) against the real std streams under Miri with -Zmiri-seed and preemption rates 0.01-0.5, both pipes captured. Miri scenarios include a print whose Display argument itself prints a whole record (re-entrant use of the lock; accepted: the nested record inside the outer one or in front of it, never another thread's bytes inside either), shuttle scenarios now and then 5-8 threads, Miri scenarios records that end inside an escape sequence (a thread's last), and a share of the Miri executions runs the program built with anstream's `test` feature (the macros' capture path). After each execution the output must parse as a concatenation of whole records (each exactly once, per-thread order kept, lock-held groups unbroken) and the global choice must behave as an atomic register. Every scenario has >= 2 threads, so every execution is non-trivial; distinct = distinct (scenario, order in which the threads' records appear) pairs, counted per scenario and summed",
             "samples": samples,
             "exhaustive": False,
             "shuttle_sim": {
